@@ -7,6 +7,8 @@ import ast
 from ..core.astutil import u, call_name
 from ..core.index import AnalysisError
 
+NOCOPY = ("np.asarray", "np.asanyarray", "np.ascontiguousarray", "np.asfortranarray", "np.atleast_1d", "np.atleast_2d", "np.atleast_3d", "np.ravel", "np.reshape",
+          "np.squeeze", "np.transpose", "np.require")
 FRESH = ("np.copy", "np.array", "np.zeros", "np.empty", "np.ones", "np.zeros_like", "np.empty_like", "np.dot", "np.cross", "np.atleast_2d")
 
 
@@ -19,6 +21,31 @@ def _mutations(f):
             for t in st.targets:
                 if isinstance(t, ast.Name) and t.id in ps:
                     rebound.setdefault(t.id, st.lineno)
+    # locals that may share memory with a parameter: `h = np.asarray(size, dtype=float)` returns the caller's own array when it already has that type,
+    # `v = p[1:]`, `q = p.reshape(...)`, `q = p`.  An in-place operation on such a local is an in-place operation on the parameter.
+    alias = {}
+    changed = True
+    while changed:
+        changed = False
+        for st in ast.walk(f.node):
+            if isinstance(st, ast.Assign) and len(st.targets) == 1 and isinstance(st.targets[0], ast.Name) and st.targets[0].id not in ps:
+                v, src = st.value, None
+                if isinstance(v, ast.Name):
+                    src = v.id
+                elif isinstance(v, ast.Call) and (call_name(v) or "") in NOCOPY and v.args and isinstance(v.args[0], ast.Name):
+                    src = v.args[0].id
+                elif isinstance(v, ast.Call) and isinstance(v.func, ast.Attribute) and v.func.attr in ("reshape", "ravel", "view", "squeeze") and isinstance(v.func.value, ast.Name):
+                    src = v.func.value.id
+                elif isinstance(v, ast.Subscript) and isinstance(v.value, ast.Name) and any(isinstance(x, ast.Slice) for x in ([v.slice] + (list(v.slice.elts) if isinstance(v.slice, ast.Tuple) else []))):
+                    src = v.value.id
+                if src is not None:
+                    root = src if (src in ps and not (src in rebound and rebound[src] < st.lineno)) else alias.get(src)
+                    # a local with several definitions is an alias only if every one is
+                    defs = [x for x in ast.walk(f.node) if isinstance(x, (ast.Assign, ast.AugAssign)) and any(isinstance(t_, ast.Name) and t_.id == st.targets[0].id
+                                                                                                               for t_ in (x.targets if isinstance(x, ast.Assign) else []))]
+                    if root is not None and len(defs) == 1 and alias.get(st.targets[0].id) != root:
+                        alias[st.targets[0].id] = root
+                        changed = True
     for st in ast.walk(f.node):
         tg = []
         if isinstance(st, ast.AugAssign):
@@ -31,6 +58,11 @@ def _mutations(f):
             b = t
             while isinstance(b, ast.Subscript):
                 b = b.value
+            if isinstance(b, ast.Name) and b.id in alias:
+                if isinstance(st, ast.AugAssign) and isinstance(st.target, ast.Name) and not _arrayish(f, alias[b.id]):
+                    continue          # `t = radius; t /= length` on a scalar parameter rebinds t
+                out.append((st, "%s (through `%s`, which may be the same array)" % (alias[b.id], b.id)))
+                continue
             if isinstance(b, ast.Name) and b.id in ps and not (b.id in rebound and rebound[b.id] < st.lineno):
                 if isinstance(st, ast.AugAssign) and isinstance(st.target, ast.Name):
                     # p += x on a name: in place only for arrays; scalars (counters) are rebound.  Array-ness: the parameter is subscripted,
@@ -42,6 +74,8 @@ def _mutations(f):
             for k in st.keywords:
                 if k.arg == "out" and isinstance(k.value, ast.Name) and k.value.id in ps and k.value.id not in rebound:
                     out.append((st, k.value.id))
+                elif k.arg == "out" and isinstance(k.value, ast.Name) and k.value.id in alias:
+                    out.append((st, "%s (through `%s`)" % (alias[k.value.id], k.value.id)))
     return out
 
 
@@ -87,9 +121,6 @@ def r_pureargs(idx, rep, modules, rule="R-PUREARGS", floor=10):
 
 # ---------------------------------------------------------------------------------------------------------------------------------
 # R-UNTOUCHED: a query leaves the colliders it is given as they were.
-
-NOCOPY = ("np.asarray", "np.asanyarray", "np.ascontiguousarray", "np.asfortranarray", "np.atleast_1d", "np.atleast_2d", "np.atleast_3d", "np.ravel", "np.reshape",
-          "np.squeeze", "np.transpose", "np.require")
 
 
 def _aliased(v, ps):
